@@ -7,7 +7,7 @@
     is outside the model (the property says "up to rounding"). *)
 From Coq Require Import Reals List.
 From SV Require Import Rot.RotBase Gen.RotFormulas_gen Rot.RotAlgebra Rot.RotAliasProofs Rot.RotEuler Rot.RotEulerProofs
-  Rot.RotDispatch Rot.RotDispatchProofs Rot.RotMixedProofs Gen.RotDispatch_gen Rot.RotGJ Rot.RotGJProofs
+  Rot.RotDispatch Rot.RotDispatchProofs Rot.RotMixedProofs Gen.RotDispatch_gen Rot.RotGJ Rot.RotGJProofs Rot.RotGJExample
   Rot.RotReify Gen.RotReified_gen Rot.RotReifyProofs.
 Open Scope R_scope.
 
@@ -121,6 +121,11 @@ Theorem c04_mixed_assoc_angle : forall atan2, atan2_spec atan2 -> forall v a B m
     spec atan2 (VVec (vec_rot (from_angle_obj a) v)) B = spec atan2 (VVec v) (VAng ab).
 Proof. exact mixed_assoc_angle. Qed.
 
+(** Non-vacuity of the Gauss-Jordan theorems: a program equal to today's generated one is accepted and inverse() returns on
+    the identity (which is a rotation). *)
+Example c04_inverse_hyp_satisfiable :
+  gj_prog_ok gj_ref_prog = true /\ gj_inverse Rnum gj_ref_prog (rows_of I3) = GOk (rows_of I3).
+Proof. exact gj_identity. Qed.
 (** Non-vacuity: the identity is a rotation outside the gimbal band; the pole is a rotation inside it. *)
 Example c04_hyp_satisfiable_main : rotation I3 /\ horiz I3 > 1 / 1000.
 Proof. exact rotation_I3_main. Qed.
